@@ -592,6 +592,7 @@ func (s *sess) result(e *lp.Exec, what string, ret string, ci *conn, logd int) {
 	s.reserve()
 	s.mu.Lock()
 	sort.Strings(s.closes) // Stop and a closing UDP listener walk tables/maps: order is not part of the property
+	sort.Strings(s.dials)  // likewise the dial callbacks of several pending dials ended by one Stop
 	opens, closes, dials := strings.Join(s.opens, ","), strings.Join(s.closes, ","), strings.Join(s.dials, ",")
 	s.opens, s.closes, s.dials = nil, nil, nil
 	orc := s.orc
